@@ -104,3 +104,26 @@ def st_steps(class_names: list[str], field_names: list[str], max_steps: int = 4)
     marker = st.just({"field": None, "index": None, "cls": None})
     body = st.lists(st.one_of(step, step, step, marker), max_size=max_steps - 1)
     return st.tuples(body, last).map(lambda t: [*t[0], t[1]])
+
+
+def subsequence_path(chain: list[tuple], mro_of: Callable[[str], list[str]], pick: int, seps: int, detail: int) -> tuple[list[dict], bool]:
+    """an xpath over a subsequence of the node's chain (always including the node itself) whose
+    separators ('/' or '//') are drawn independently of whether the chosen elements are adjacent:
+    near-miss positives and negatives for the adjacency / anywhere logic."""
+    m = len(chain) - 1
+    idxs = [i for i in range(m) if pick >> i & 1] + [m]
+    steps: list[dict] = []
+    relative = False
+    for k, i in enumerate(idxs):
+        f, ix, c = chain[i]
+        anywhere = bool(seps >> k & 1)
+        if k == 0 and anywhere and detail & 1:
+            relative = True
+        elif anywhere:
+            steps.append({"field": None, "index": None, "cls": None})
+        d = detail >> (1 + 3 * k) & 7
+        mro = mro_of(c)
+        step = {"field": f if d & 1 else None, "index": (str(ix) if ix is not None else "") if d & 2 else None,
+                "cls": mro[0] if not d & 4 else mro[(d + k) % len(mro)]}
+        steps.append(step)
+    return steps, relative
